@@ -18,7 +18,8 @@ equality of abstract records evaluated in Coq is a raw-text equality of all unto
 Per-sample call (AbsCall):
     gt      None if FORMAT has no GT key, else tuple of allele numbers / None for '.'   (pysam call["GT"])
     phased  pysam's call.phased
-    ps      int or None ('.' or no PS key)                                                (call.get("PS"))
+    ps      int, or ("text", raw) for a non-integral value of a PS not declared Integer (rendered as a negative
+            sentinel token), or None ('.' or no PS key)                                   (call.get("PS"))
     pq      raw text of the PQ field or None
     hp      None if FORMAT has no HP key, else tuple of items ("num", b, h) | "dot" | "none" | "bad",
             mirroring what pysam returns: 'b-h' strings, '.', python None
@@ -107,6 +108,15 @@ class AbsVcf:
 _HP_ITEM = re.compile(r"^(-?\d+)-(-?\d+)$")
 
 
+class BadHP(str):
+    """an HP item that is not of the form 'b-h': compares equal to "bad", keeps the text in .text"""
+
+    def __new__(cls, text):
+        o = super().__new__(cls, "bad")
+        o.text = text
+        return o
+
+
 def _hp_items(v):
     """pysam value of call['HP'] (a tuple, or a plain string for Number=1 headers) -> abstract items"""
     if isinstance(v, str) or v is None:
@@ -119,7 +129,7 @@ def _hp_items(v):
             out.append("dot")
         else:
             m = _HP_ITEM.match(str(x).strip())
-            out.append(("num", int(m.group(1)), int(m.group(2))) if m else "bad")
+            out.append(("num", int(m.group(1)), int(m.group(2))) if m else BadHP(str(x)))
     return tuple(out)
 
 
@@ -181,10 +191,11 @@ def parse_vcf(path):
                     if isinstance(ps, tuple):
                         ps = ps[0] if ps else None
                     if ps is not None and not isinstance(ps, int):      # PS not declared as Integer
+                        raw_ps = raw_fields[fmt.index("PS")] if fmt.index("PS") < len(raw_fields) else "."
                         try:
-                            ps = int(float(ps)) if float(ps) == int(float(ps)) else None
+                            ps = int(float(ps)) if float(ps) == int(float(ps)) else ("text", raw_ps)
                         except ValueError:
-                            ps = None
+                            ps = None if _missing(raw_ps) else ("text", raw_ps)
                 hp = _hp_items(c["HP"]) if "HP" in fmt else None
                 pq = None
                 other = []
@@ -237,20 +248,20 @@ def allele_term(a):
     return "None" if a is None else f"(Some {a}%nat)"
 
 
-def hp_item_term(x):
+def hp_item_term(x, it=None):
     if x == "dot":
         return "HPdot"
     if x == "none":
         return "HPnone"
     if x == "bad":
-        return "HPbad"
+        return f"(HPbad {_z(it('hp:' + getattr(x, 'text', '')) if it else 0)})"
     return f"(HPnum {_z(x[1])} {_z(x[2])})"
 
 
 def call_term(c, it):
     return ("(mkCall " + _opt(c.gt, lambda g: _list(g, allele_term)) + " " + ("true" if c.phased else "false") + " "
-            + _opt(c.ps, _z) + " " + _opt(c.pq, lambda t: _z(it("pq:" + t))) + " "
-            + _opt(c.hp, lambda h: _list(h, hp_item_term)) + " "
+            + _opt(c.ps, lambda v: _z(v) if isinstance(v, int) else _z(-(10 ** 6) - it("ps:" + v[1]))) + " " + _opt(c.pq, lambda t: _z(it("pq:" + t))) + " "
+            + _opt(c.hp, lambda h: _list(h, lambda x: hp_item_term(x, it))) + " "
             + _list(c.other, lambda kv: f"({_z(it(kv[0]))}, {_z(it('v:' + kv[1]))})") + ")")
 
 
